@@ -1,10 +1,26 @@
 import ZCV.Model.Logger
+import ZCV.Model.LoggerSetup
 import ZCV.Spec.Logger
+import ZCV.Lemmas.LoggerReg
+import ZCV.Lemmas.LoggerRegOps
+import ZCV.Lemmas.LoggerDecision
+import ZCV.Lemmas.LoggerSetup
+import ZCV.Lemmas.LoggerSetupAll
+import ZCV.Lemmas.LoggerSetupGen
 /-!
 # C20 — logger sections produce exactly the configured logging setup, once (decision logic)
+
+* level names: `C20_level_spec`, `C20_level_range`, `C20_level_table`, `C20_level_case_insensitive`, `C20_level_names_any_case`
+* `FileHandlerFactory.__init__`: `C20_std_stream_options_refused`, `C20_rotation_requires_old_files`,
+  `C20_filehandler_decision_table`, `C20_filehandler_decision` (complete, one `↔` per outcome)
+* registry of re-openable handlers, over all operation sequences: `C20_registry_invariant`, `C20_reopen_exactly_live`,
+  `C20_close_exactly_live`, `C20_dropped_never_touched` (and the one-step `C20_closeFiles_closes_all_registered`)
+* factory memoisation and logger set-up, about the hand-written model `ZCV/Model/LoggerSetup.lean` (NOT yet tied to the
+  Python by the driver): `C20_factory_memo`, `C20_factory_idempotent`, `C20_logger_setup`, `C20_section_setup`,
+  `C20_logger_setup_any`, `C20_configure_loggers`
 -/
 namespace ZCV.Props.C20
-open ZCV ZCV.Log
+open ZCV ZCV.Log ZCV.LogSetup
 
 /-- the generated level table and bounds are the documented ones: the model of `logging_level` IS the documented function -/
 theorem C20_level_spec (value : Str) : loggingLevel value = LogSpec.loggingLevel value := by
@@ -73,5 +89,277 @@ theorem C20_closeFiles_closes_all_registered (r : Reg) (h : H) (hm : h ∈ r.han
     refine ⟨h, hm, ?_⟩
     have : (r.registry.contains h.id && h.alive) = true := by rw [hreg, ha]; rfl
     simp only [this, ↓reduceIte]
+
+/-! ## Level names -/
+
+/-- the level table and the bounds extracted from the running `datatypes.py` are exactly the documented ones
+    (`critical`/`fatal` 50, `error` 40, `warn`/`warning` 30, `info` 20, `blather` 15, `debug` 10, `trace` 5, `all` 1,
+    `notset` 0; integers 0..50) -/
+theorem C20_level_table :
+    Gen.loggingLevels = LogSpec.levelNames.map (fun p => (p.1.toList, p.2)) ∧ Gen.levelLo = 0 ∧ Gen.levelHi = 50 :=
+  ⟨by decide, rfl, rfl⟩
+
+/-- level spellings are case-insensitive: two spellings with the same `str.lower()` are treated alike (accepted with
+    the same number, or both rejected) -/
+theorem C20_level_case_insensitive (s t : Str) (h : lower s = lower t) : loggingLevel s = loggingLevel t := by
+  unfold loggingLevel
+  rw [h]
+
+/-- every documented level name, in any mixture of upper and lower case, is accepted with its documented number -/
+theorem C20_level_names_any_case (s : Str) (nm : String) (n : Int) (hmem : (nm, n) ∈ LogSpec.levelNames)
+    (hs : lower s = nm.toList) : loggingLevel s = .ok n := by
+  rw [C20_level_spec]
+  unfold LogSpec.loggingLevel
+  simp only [hs]
+  simp only [LogSpec.levelNames, List.mem_cons, List.not_mem_nil, or_false, Prod.mk.injEq] at hmem
+  rcases hmem with h | h | h | h | h | h | h | h | h | h | h <;> (obtain ⟨h1, h2⟩ := h; subst h1; subst h2; rfl)
+
+example : loggingLevel "WaRnInG".toList = .ok 30 := by rfl
+example : loggingLevel "Blather".toList = loggingLevel "BLATHER".toList := C20_level_case_insensitive _ _ (by decide)
+example : loggingLevel " 50 ".toList = .ok 50 ∧ loggingLevel "51".toList = .error .valueError ∧
+    loggingLevel "-1".toList = .error .valueError := ⟨by rfl, by rfl, by rfl⟩
+
+/-! ## The registry of re-openable handlers, over every operation sequence -/
+
+/-- In every state the registry can reach by any sequence of create / drop / close / reopenFiles / closeFiles operations:
+    the handlers carry the ids `0..n-1` in creation order; the registry has no duplicates and lists ids in creation order;
+    an id is registered exactly when it is the id of a created handler that is still referenced and not closed — in fact
+    the registry IS the list of those ids. -/
+theorem C20_registry_invariant (ops : List Op) :
+    (runReg ops).handlers.map (·.id) = List.range (runReg ops).handlers.length ∧
+    (runReg ops).registry.Nodup ∧
+    (runReg ops).registry.Pairwise (· < ·) ∧
+    (∀ i, i ∈ (runReg ops).registry ↔
+      ∃ h ∈ (runReg ops).handlers, h.id = i ∧ h.alive = true ∧ h.closed = false) ∧
+    (runReg ops).registry = ((runReg ops).handlers.filter (fun h => h.alive && !h.closed)).map (·.id) := by
+  have hr := regInv_run ops
+  have hsorted : (runReg ops).registry.Pairwise (· < ·) := by
+    rw [hr.reg]
+    have hsub : (((runReg ops).handlers.filter H.live).map (·.id)).Sublist ((runReg ops).handlers.map (·.id)) :=
+      List.Sublist.map _ List.filter_sublist
+    rw [hr.ids] at hsub
+    exact List.Pairwise.sublist hsub List.pairwise_lt_range
+  exact ⟨hr.ids, hsorted.imp (fun h => Nat.ne_of_lt h), hsorted, hr.mem_registry_iff, hr.reg⟩
+
+example : (runReg [.create, .create, .create, .drop 0, .close 2, .reopenFiles]).registry = [1] := by decide
+example : (runReg [.create, .create, .create, .drop 0, .close 2, .reopenFiles]).handlers =
+    [⟨0, false, false, 0⟩, ⟨1, true, false, 1⟩, ⟨2, true, true, 0⟩] := by decide
+
+/-- `reopenFiles()` after any history: the handlers that are still referenced and not closed (= the registered ones)
+    get reopened exactly once, every other handler is left exactly as it was, and the registry is unchanged. -/
+theorem C20_reopen_exactly_live (ops : List Op) :
+    (stepReg (runReg ops) .reopenFiles).handlers =
+      (runReg ops).handlers.map
+        (fun h => if h.alive && !h.closed then { h with reopened := h.reopened + 1 } else h) ∧
+    (stepReg (runReg ops) .reopenFiles).registry = (runReg ops).registry ∧
+    (∀ h ∈ (runReg ops).handlers, (runReg ops).registry.contains h.id = (h.alive && !h.closed)) :=
+  ⟨logreg_reopen_handlers (regInv_run ops), logreg_prune_eq (regInv_run ops),
+   fun _ hm => (regInv_run ops).contains_iff hm⟩
+
+/-- `closeFiles()` after any history: the handlers that are still referenced and not closed (= the registered ones)
+    get closed, every other handler is left exactly as it was, the registry ends empty, and a second `closeFiles()` or
+    a `reopenFiles()` right after changes nothing at all. -/
+theorem C20_close_exactly_live (ops : List Op) :
+    (stepReg (runReg ops) .closeFiles).handlers =
+      (runReg ops).handlers.map (fun h => if h.alive && !h.closed then { h with closed := true } else h) ∧
+    (stepReg (runReg ops) .closeFiles).registry = [] ∧
+    stepReg (stepReg (runReg ops) .closeFiles) .closeFiles = stepReg (runReg ops) .closeFiles ∧
+    stepReg (stepReg (runReg ops) .closeFiles) .reopenFiles = stepReg (runReg ops) .closeFiles :=
+  ⟨logreg_close_handlers (regInv_run ops), rfl, logreg_closeFiles_of_empty rfl, logreg_reopenFiles_of_empty rfl⟩
+
+example : (runReg [.create, .create, .drop 0, .closeFiles, .create, .reopenFiles]).handlers =
+    [⟨0, false, false, 0⟩, ⟨1, true, true, 0⟩, ⟨2, true, false, 1⟩] := by decide
+
+/-- A handler that was dropped (no longer referenced) or closed at some point is never touched again, whatever
+    operations follow: it stays at its position with the same id, its reopen counter and its closed flag are frozen
+    (so no later `reopenFiles`/`closeFiles` acts on it), it can at most lose its last reference, and it is never
+    registered again. -/
+theorem C20_dropped_never_touched (ops₁ ops₂ : List Op) (i : Nat) (h : H)
+    (hi : (runReg ops₁).handlers[i]? = some h) (hdead : h.alive = false ∨ h.closed = true) :
+    ∃ h', (runReg (ops₁ ++ ops₂)).handlers[i]? = some h' ∧
+      h'.id = h.id ∧ h'.reopened = h.reopened ∧ h'.closed = h.closed ∧ (h'.alive = true → h.alive = true) ∧
+      h.id ∉ (runReg (ops₁ ++ ops₂)).registry := by
+  have hd : h.live = false := by
+    unfold H.live
+    rcases hdead with ha | hc
+    · rw [ha]; rfl
+    · rw [hc]; simp
+  rw [runReg_append]
+  obtain ⟨b, hb, hfz⟩ := logreg_foldl_dead ops₂ (regInv_run ops₁) i h hi hd
+  refine ⟨b, hb, hfz.1, hfz.2.1, hfz.2.2.1, hfz.2.2.2, ?_⟩
+  have hinv := regInv_foldl ops₂ (regInv_run ops₁)
+  rw [← hfz.1]
+  exact logreg_not_registered hinv (List.mem_of_getElem? hb) (H.frozenTo_live hfz hd)
+
+example : (runReg [.create, .create, .drop 0]).handlers[0]? = some ⟨0, false, false, 0⟩ := by decide
+
+/-! ## `FileHandlerFactory.__init__`: the complete decision -/
+
+/-- The model of `FileHandlerFactory.__init__` equals the decision table `fileHandlerTable`: first the path
+    (STDERR, STDOUT, a file), then the option combination. -/
+theorem C20_filehandler_decision_table (o : FileOpts) : fileHandlerKind o = fileHandlerTable o := logdec_table o
+
+/-- Each possible outcome of `FileHandlerFactory.__init__` is characterised exactly (`plainStd` = none of max-size,
+    old-files, when, delay, encoding is given; `isStd` = the path is STDOUT or STDERR):
+    * a stream handler on stderr / stdout: the path is STDERR / STDOUT and none of the five options is given;
+    * a plain `FileHandler`: a file path, and none of when, max-size, old-files, interval;
+    * a `RotatingFileHandler`: a file path, old-files and max-size given, when not;
+    * a `TimedRotatingFileHandler` with interval `n`: a file path, old-files and when given, max-size not, and `n` is
+      the configured interval (1 when not configured);
+    * an error — always `ValueError` — in exactly the remaining cases: an option on a standard stream; rotation asked
+      for (when, max-size or interval) without old-files; both when and max-size; old-files alone. -/
+theorem C20_filehandler_decision (o : FileOpts) :
+    (fileHandlerKind o = .ok .stderr ↔ o.path = "STDERR".toList ∧ o.plainStd) ∧
+    (fileHandlerKind o = .ok .stdout ↔ o.path = "STDOUT".toList ∧ o.plainStd) ∧
+    (fileHandlerKind o = .ok .plainFile ↔
+      ¬ o.isStd ∧ truthy o.when = false ∧ o.maxBytes = 0 ∧ o.oldFiles = 0 ∧ o.interval = 0) ∧
+    (fileHandlerKind o = .ok .rotating ↔ ¬ o.isStd ∧ truthy o.when = false ∧ o.maxBytes ≠ 0 ∧ o.oldFiles ≠ 0) ∧
+    (∀ n, fileHandlerKind o = .ok (.timedRotating n) ↔
+      ¬ o.isStd ∧ truthy o.when = true ∧ o.maxBytes = 0 ∧ o.oldFiles ≠ 0 ∧ n = o.effInterval) ∧
+    (∀ e, fileHandlerKind o = .error e ↔
+      e = .valueError ∧
+      ((o.isStd ∧ ¬ o.plainStd) ∨
+       (¬ o.isStd ∧ o.oldFiles = 0 ∧ (truthy o.when = true ∨ o.maxBytes ≠ 0 ∨ o.interval ≠ 0)) ∨
+       (¬ o.isStd ∧ o.oldFiles ≠ 0 ∧ truthy o.when = true ∧ o.maxBytes ≠ 0) ∨
+       (¬ o.isStd ∧ o.oldFiles ≠ 0 ∧ truthy o.when = false ∧ o.maxBytes = 0))) :=
+  ⟨logdec_iff_stderr o, logdec_iff_stdout o, logdec_iff_plainFile o, logdec_iff_rotating o,
+   logdec_iff_timedRotating o, logdec_iff_error o⟩
+
+example : fileHandlerKind ⟨"/var/log/z.log".toList, 0, 7, some "midnight".toList, 0, none, true⟩ = .ok (.timedRotating 1) := by
+  rfl
+example : fileHandlerKind ⟨"/var/log/z.log".toList, 0, 7, none, 0, none, false⟩ = .error .valueError := by rfl
+
+/-! ## Factory memoisation and logger set-up
+
+The theorems of this section are about `ZCV/Model/LoggerSetup.lean`, a model written by hand from `factory.py`,
+`logger.py` and `HandlerFactory.create`.  It is NOT yet compared with the running Python by the driver. -/
+
+/-- `Factory.__call__`, for any subclass: a second call returns the same product and changes neither the factory nor
+    anything else (`create` is not run again). -/
+theorem C20_factory_memo {F α σ : Type} (getInst : F → Option α) (setInst : F → α → F) (create : F → σ → α × F × σ)
+    (hgs : ∀ f a, getInst (setInst f a) = some a) (f : F) (w : σ) :
+    factoryCall getInst setInst create (factoryCall getInst setInst create f w).2.1 (factoryCall getInst setInst create f w).2.2
+      = factoryCall getInst setInst create f w :=
+  lgs_factoryCall_idem getInst setInst create hgs f w
+
+/-- Calling a logger factory (eventlog or logger section, in any state, in any logging world) a second time returns
+    the same logger and leaves the factory and the whole logging world exactly as after the first call: no handler is
+    added, no level or propagate flag is set again.  The same holds for handler factories. -/
+theorem C20_factory_idempotent (f : LoggerFactory) (w : World) :
+    (f.call w).2.1.call (f.call w).2.2 = f.call w ∧
+    (∀ hf : HandlerFactory, (hf.call w).2.1.call (hf.call w).2.2 = hf.call w) :=
+  ⟨lgs_call_idem f w, fun hf => lgs_handler_call_idem hf w⟩
+
+/-- Calling a logger factory as the loader built it (nothing called yet), in a well-formed logging world: the call
+    returns the logger of the configured name (the root logger for `<eventlog>`, for a `<logger>` without name and for
+    the names "" and "root"); afterwards that logger has the configured level, the configured propagate flag (left
+    alone by `<eventlog>`), and its handlers are the ones it had before followed by exactly one NEW handler object per
+    handler section, in order, each carrying its section's settings — or by one new `NullHandler` when no handler
+    section is configured; no other logger is touched. -/
+theorem C20_logger_setup (f : LoggerFactory) (w : World) (hf : f.Fresh) (hw : w.WF) :
+    (f.call w).1 = loggerKey f.name ∧
+    ((f.call w).2.2.get (loggerKey f.name)).level = f.level ∧
+    ((f.call w).2.2.get (loggerKey f.name)).propagate =
+      (f.propagate.getD (w.get (loggerKey f.name)).propagate) ∧
+    (∃ new, ((f.call w).2.2.get (loggerKey f.name)).handlers = (w.get (loggerKey f.name)).handlers ++ new ∧
+      new.map (·.cfg) = (if f.handlerFactories.isEmpty then [none] else f.handlerFactories.map (fun hf => some hf.cfg)) ∧
+      new.map (·.id) = List.range' w.nextId new.length) ∧
+    (∀ k, k ≠ loggerKey f.name → (f.call w).2.2.get k = w.get k) ∧
+    (f.call w).2.1.inst = some (loggerKey f.name) ∧
+    (f.call w).2.2.WF := by
+  obtain ⟨h1, h2, h3, h4, _, h6⟩ := lgs_call_fresh_wf f w hf hw
+  refine ⟨h1, by rw [h3], by rw [h3], ⟨createdHandlers w.nextId f.handlerFactories, by rw [h3], ?_, ?_⟩, h4, by rw [h2], h6⟩
+  · exact lgs_createdHandlers_cfg _ _
+  · exact lgs_createdHandlers_ids _ _
+
+/-- `C20_logger_setup` read off the sections: the factory the loader builds for a `<logger>` section (name, level,
+    propagate, handler sections `hs`) — called in a well-formed world — returns the logger of that name, which then has
+    that level and propagate flag and, after its old handlers, one new handler per handler section in order (a single
+    `NullHandler` when `hs` is empty).  For an `<eventlog>` section the logger is the root logger and propagate is not
+    touched. -/
+theorem C20_section_setup (name : Option Str) (level : Int) (propagate : Bool) (hs : List HandlerCfg) (w : World) (hw : w.WF) :
+    (let f := loggerFactoryOf name level propagate hs
+     (f.call w).1 = loggerKey name ∧
+     ((f.call w).2.2.get (loggerKey name)).level = level ∧
+     ((f.call w).2.2.get (loggerKey name)).propagate = propagate ∧
+     ∃ new, ((f.call w).2.2.get (loggerKey name)).handlers = (w.get (loggerKey name)).handlers ++ new ∧
+       new.map (·.cfg) = (if hs.isEmpty then [none] else hs.map some)) ∧
+    (let f := eventLogFactoryOf level hs
+     (f.call w).1 = rootName ∧
+     ((f.call w).2.2.get rootName).level = level ∧
+     ((f.call w).2.2.get rootName).propagate = (w.get rootName).propagate ∧
+     ∃ new, ((f.call w).2.2.get rootName).handlers = (w.get rootName).handlers ++ new ∧
+       new.map (·.cfg) = (if hs.isEmpty then [none] else hs.map some)) := by
+  have hmap : (if (hs.map handlerFactoryOf).isEmpty then [none] else (hs.map handlerFactoryOf).map (fun hf => some hf.cfg))
+      = (if hs.isEmpty then [none] else hs.map some) := by
+    cases hs with
+    | nil => rfl
+    | cons c t =>
+      simp only [List.map_cons, List.isEmpty_cons, Bool.false_eq_true, ↓reduceIte, List.map_map, List.cons.injEq]
+      exact ⟨rfl, List.map_congr_left (fun _ _ => rfl)⟩
+  constructor
+  · obtain ⟨h1, h2, h3, ⟨new, h4, h5, _⟩, _⟩ :=
+      C20_logger_setup (loggerFactoryOf name level propagate hs) w (lgs_loggerFactoryOf_fresh name level propagate hs) hw
+    exact ⟨h1, h2, h3, new, h4, h5.trans hmap⟩
+  · obtain ⟨h1, h2, h3, ⟨new, h4, h5, _⟩, _⟩ :=
+      C20_logger_setup (eventLogFactoryOf level hs) w (lgs_eventLogFactoryOf_fresh level hs) hw
+    exact ⟨h1, h2, h3, new, h4, h5.trans hmap⟩
+
+/-- The part of the set-up that needs no hypothesis at all: whatever the logging world and whatever the state of the
+    handler factories (some may already have been called by the application), the first call of a logger factory
+    returns the logger of the configured name, sets the configured level and propagate flag (`<eventlog>` leaves
+    propagate alone), keeps the handlers the logger already had, in order, at the front, touches no other logger,
+    leaves every handler factory with its memo filled and its product on the logger, and records the logger in the
+    factory's memo.  A factory that was already called just returns its logger. -/
+theorem C20_logger_setup_any (f : LoggerFactory) (w : World) :
+    (f.inst = none →
+      (f.call w).1 = loggerKey f.name ∧
+      ((f.call w).2.2.get (loggerKey f.name)).level = f.level ∧
+      ((f.call w).2.2.get (loggerKey f.name)).propagate = f.propagate.getD (w.get (loggerKey f.name)).propagate ∧
+      (w.get (loggerKey f.name)).handlers <+: ((f.call w).2.2.get (loggerKey f.name)).handlers ∧
+      (∀ k, k ≠ loggerKey f.name → (f.call w).2.2.get k = w.get k) ∧
+      (f.call w).2.1.handlerFactories.map (·.cfg) = f.handlerFactories.map (·.cfg) ∧
+      (f.handlerFactories ≠ [] → ∀ hf ∈ (f.call w).2.1.handlerFactories, ∃ h, hf.inst = some h ∧
+        ∃ x ∈ ((f.call w).2.2.get (loggerKey f.name)).handlers, x.id = h.id) ∧
+      (f.call w).2.1.inst = some (loggerKey f.name)) ∧
+    (∀ n, f.inst = some n → f.call w = (n, f, w)) := by
+  refine ⟨fun hi => ?_, fun n hn => lgs_call_called f w n hn⟩
+  obtain ⟨hr, hinst⟩ := lgs_call_gen f w hi
+  exact ⟨hr.name, hr.level, hr.propagate, hr.oldHandlers, hr.other, hr.sections, hr.products, hinst⟩
+
+/-- a `<logger>` section `app.db`, level 20, propagate off, with two handler sections -/
+def exLogger : LoggerFactory :=
+  ⟨some "app.db".toList, 20, some false,
+   [⟨⟨"FileHandler".toList, 10, "%(message)s".toList, "classic".toList, none⟩, none⟩,
+    ⟨⟨"StreamHandler".toList, 30, "{message}".toList, "format".toList, none⟩, none⟩], none⟩
+/-- an `<eventlog>` section, level 10, without handler sections -/
+def exEventlog : LoggerFactory := ⟨none, 10, none, [], none⟩
+
+example : exLogger.Fresh ∧ exEventlog.Fresh := by decide
+example : World.WF ⟨[], 0⟩ := lgs_wf_empty 0
+example : (exLogger.call ⟨[], 0⟩).1 = "app.db".toList ∧
+    (exLogger.call ⟨[], 0⟩).2.2 =
+      ⟨[("app.db".toList, ⟨20, false,
+          [⟨0, some ⟨"FileHandler".toList, 10, "%(message)s".toList, "classic".toList, none⟩⟩,
+           ⟨1, some ⟨"StreamHandler".toList, 30, "{message}".toList, "format".toList, none⟩⟩]⟩)], 2⟩ := by decide
+example : (callAll [exLogger, exEventlog] ⟨[], 0⟩).2.get "root".toList = ⟨10, true, [⟨2, none⟩]⟩ := by decide
+example : (exLogger.call ⟨[], 0⟩).2.1.call (exLogger.call ⟨[], 0⟩).2.2 = exLogger.call ⟨[], 0⟩ := by decide
+
+/-- `configureLoggers`-style start-up: calling, in order, the fresh factories of sections that configure pairwise
+    different loggers gives every one of these loggers its configured level, propagate flag and — after the handlers it
+    already had — exactly one handler per handler section in order; loggers that are not configured are untouched;
+    running the loop a second time changes nothing. -/
+theorem C20_configure_loggers (fs : List LoggerFactory) (w : World) (hfresh : ∀ f ∈ fs, f.Fresh) (hw : w.WF)
+    (hd : (fs.map (fun f => loggerKey f.name)).Nodup) :
+    (∀ f ∈ fs,
+      ((callAll fs w).2.get (loggerKey f.name)).level = f.level ∧
+      ((callAll fs w).2.get (loggerKey f.name)).propagate =
+        (f.propagate.getD (w.get (loggerKey f.name)).propagate) ∧
+      ∃ new, ((callAll fs w).2.get (loggerKey f.name)).handlers = (w.get (loggerKey f.name)).handlers ++ new ∧
+        new.map (·.cfg) = f.cfgs) ∧
+    (∀ k, k ∉ fs.map (fun f => loggerKey f.name) → (callAll fs w).2.get k = w.get k) ∧
+    callAll (callAll fs w).1 (callAll fs w).2 = callAll fs w := by
+  obtain ⟨h1, h2, _⟩ := lgs_callAll_fresh fs w hfresh hw hd
+  exact ⟨h1, h2, lgs_callAll_idem fs w⟩
 
 end ZCV.Props.C20
